@@ -18,6 +18,38 @@ CHECKS = {
         design_ref="DESIGN.md section 6, C25",
         note=TB + "std's partition_point is modelled by its documented specification (precondition proved). Axioms: none.",
         technique="Coq proof (induction over the text) + exhaustive model/implementation correspondence"),
+    "C05": dict(
+        category="proof",
+        text=("Coq theorem by mutual structural induction over ALL programs of a binder-only syntax: the scope-stack model of hir/body.rs "
+              "(push/pop/mem::take discipline, params, inline header params, globals) resolves every identifier exactly as an "
+              "environment-passing lexical-scoping specification prescribes and never reaches the empty-scope-stack unwrap; after the "
+              "committed fix (child scope per switch arm) this holds for switch arguments too (C05_fixed_full); one narrow class "
+              "(lambda in a lambda header after a named parameter: assert panic) is refuted and listed as a finding. Tied to hir::lower "
+              "via a cfg hook on every identifier occurrence of 4k (quick) / 60k (thorough) generated programs and to printed values of built programs."),
+        design_ref="DESIGN.md section 6 C05, section 10.6",
+        note=TB + "Cast/index lowering order, labels, imports and directives are outside the model (they do not touch scopes). Axioms: none.",
+        technique="Coq proof (refinement of a stack machine to environment-passing semantics) + differential correspondence + end-to-end printed values"),
+    "C14": dict(
+        category="proof",
+        text=("Coq theorems for EVERY typing oracle and every access path: the arm-for-arm model of get_mutability (assignment and ^mut consumers) "
+              "accepts exactly the type-directed mutable places outside a precisely defined class `suspect` (the arms that look at the "
+              "initialiser expression instead of the pointer type), where soundness and completeness are refuted by witnesses replayed "
+              "on the real compiler (writes through immutable pointers that change a `::` binding). Exhaustive chain enumeration (16 root "
+              "types x <=3 steps x plain/compound/^mut/^) through the real front end vs the model; accepted programs are built and run and no "
+              "`::` cell may change (run-time oracle independent of the model)."),
+        design_ref="DESIGN.md section 6 C14, section 10.6",
+        note=TB + "Block-tail, cast and file-member arms are modelled and proved about but not generated. Axioms: none.",
+        technique="Coq proof (case analysis over access paths with a typing oracle) + exhaustive front-end correspondence + run-time immutability oracle"),
+    "C15": dict(
+        category="proof",
+        text=("Coq theorems about the model of get_const (the real worklist, fuel = tree size proved sufficient), const_data and the consumers: "
+              "get_const answers Const exactly for expressions const by the README rule (char literals excepted, refuted witness), accepted "
+              "array lengths and discriminants denote the expression's value, non-const is reported, consumers do not crash on supported "
+              "kinds (comptime-argument crashes refuted with witnesses). Exhaustive expression kind x const position x declaration order "
+              "through the real front end with comptime evaluation; accepted array lengths reflected at run time."),
+        design_ref="DESIGN.md section 6 C15, section 10.6",
+        note=TB + "The type-annotation consumer (const_ty) is checked with the spec as oracle but not modelled; JIT evaluation and two indexing crashes lie outside the model and are reported as findings. Axioms: none.",
+        technique="Coq proof (worklist invariant with fuel bound, inductive IsConst) + exhaustive front-end correspondence + end-to-end reflected lengths"),
     "C12": dict(
         category="proof",
         text=("Coq theorems over ALL types of the Ty syntax (no pool, no bound) about the arm-for-arm model of Ty::can_fit_into / "
